@@ -58,6 +58,24 @@ def leaf : ImportSet → LibName
   | .direct name _ => name
   | .only s _ | .except s _ | .prefix s _ | .rename s _ => leaf s
 
+/-- the source location of the leaf -/
+def leafLoc : ImportSet → Loc
+  | .direct _ loc => loc
+  | .only s _ | .except s _ | .prefix s _ | .rename s _ => leafLoc s
+
+/-- the number of operators around the leaf -/
+def depth : ImportSet → Nat
+  | .direct _ _ => 0
+  | .only s _ | .except s _ | .prefix s _ | .rename s _ => depth s + 1
+
+/-- what the operators of an import-set term do to the export list of its library -/
+def transform : ImportSet → Bindings → Bindings
+  | .direct _ _, bs => bs
+  | .only s ids, bs => (transform s bs).filter (fun b => ids.contains b.1)
+  | .except s ids, bs => (transform s bs).filter (fun b => !ids.contains b.1)
+  | .prefix s p, bs => (transform s bs).map (fun b => (p ++ b.1, b.2))
+  | .rename s pairs, bs => (transform s bs).map (fun b => (renameTarget pairs b.1, b.2))
+
 /-- fuel that certainly suffices to evaluate the term over instantiated libraries -/
 def fuelNeeded : ImportSet → Nat
   | .direct _ _ => 2
